@@ -144,7 +144,7 @@ def run_variant(args) -> dict:
             return {"id": v["id"], "status": "KILLED" if ok else "SURVIVED", "fired": fired, "where": where[:6],
                     "detail": v.get("what", ""), "wall": round(time.time() - t0, 2)}
         else:
-            props = implemented()
+            props = v.get("only_props") or implemented()
             res = analyse(root, props)
             noisy = [f'{o["rule"]} @ {o["where"].replace(root, "")}: {o["detail"][:120]}' for p in props for o in res.get(p, [])]
             if "ERROR" in res:
@@ -178,13 +178,26 @@ def corpus(repo: str) -> list[dict]:
                     vs.append({"id": f"S-{d.name}", "kind": "break", "patch": str(d / "patch.diff"),
                                "rules": m["expected_rules"], "props": m.get("props"), "need": "all",
                                "what": "seeded change: " + m.get("summary", "")[:100]})
+    # behaviour-preserving refactorings written by independent sub-agents: every rule set must stay silent
+    bd = VERIF / "benign"
+    noisy = {}
+    if (bd / "KNOWN_NOISY.json").exists():
+        noisy = json.loads((bd / "KNOWN_NOISY.json").read_text())
+    if bd.is_dir():
+        for d in sorted(bd.iterdir()):
+            if (d / "patch.diff").exists() and d.name not in noisy:
+                vs.append({"id": f"N-{d.name}", "kind": "benign", "patch": str(d / "patch.diff"),
+                           "what": "benign refactoring (sub-agent): " + ((d / "note.txt").read_text()[:80].replace("\n", " ")
+                                                                        if (d / "note.txt").exists() else "")})
     return vs
 
 
-def run_corpus(repo: str, select, jobs: int = 16) -> list[dict]:
+def run_corpus(repo: str, select, jobs: int = 16, only_props: list[str] | None = None) -> list[dict]:
     vs = [v for v in corpus(repo) if select(v)]
     if not vs:
         return []
+    if only_props:
+        vs = [dict(v, only_props=only_props) if v["kind"] == "benign" else v for v in vs]
     with mp.Pool(min(jobs, len(vs))) as pool:
         return pool.map(run_variant, [(v, repo) for v in vs], chunksize=1)
 
@@ -198,7 +211,7 @@ def run_for_property(prop: str, repo: str) -> dict:
             return True
         return any(r.split("-")[0] == prop for r in v["rules"])
 
-    results = run_corpus(repo, select)
+    results = run_corpus(repo, select, only_props=[prop])
     failures = []
     killed = silent = 0
     for r in results:
